@@ -532,8 +532,13 @@ template<class T> constexpr T spice(T*t) {return *t;}
 
 //Array ops
 
+//the index is found where the port's name has its '#'
+//(the name itself may contain digits, e.g. "osc2amp#4")
 #define rBOILS_BEGIN rBOIL_BEGIN \
             const char *mm = msg; \
+            const char *hash_pos = strchr(data.port->name, '#'); \
+            if(hash_pos && strlen(msg) >= (size_t)(hash_pos - data.port->name)) \
+                mm += hash_pos - data.port->name; \
             while(*mm && !isdigit(*mm)) ++mm; \
             unsigned idx = atoi(mm);
 
